@@ -1,8 +1,10 @@
 package main
 
 import (
+	"bytes"
 	"encoding/json"
 	"fmt"
+	nethttp "net/http"
 	"os"
 	"strconv"
 	"strings"
@@ -10,6 +12,7 @@ import (
 	"github.com/brutella/hc"
 	"github.com/brutella/hc/accessory"
 	"github.com/brutella/hc/characteristic"
+	haphttp "github.com/brutella/hc/hap/http"
 	"github.com/brutella/hc/service"
 )
 
@@ -96,6 +99,9 @@ func runIDs(id string, toks []string) (res string) {
 	}()
 	if toks[0] == "idst" {
 		return runIDsTransport(toks[1], toks[2])
+	}
+	if toks[0] == "served" {
+		return runServed(toks[1])
 	}
 	cont := accessory.NewContainer()
 	var out []string
@@ -266,4 +272,75 @@ func runIDsTransport(spec, mode string) (res string) {
 		out = append(out, fmt.Sprintf("a%d=%d:%s", ai, a.ID, strings.Join(ids, ",")))
 	}
 	return strings.Join(out, " ")
+}
+
+// case: served <spec>
+// The attribute database written to controller A in chunks while, between two chunks (A's socket write blocks), another
+// JSON answer is encoded and written to controller B by the same scheduler thread: both must receive exactly their own
+// encoding.
+type chunkHook struct {
+	buf   bytes.Buffer
+	hdr   nethttp.Header
+	calls int
+	hook  func()
+}
+
+func (w *chunkHook) Header() nethttp.Header { return w.hdr }
+func (w *chunkHook) WriteHeader(int)        {}
+func (w *chunkHook) Write(p []byte) (int, error) {
+	w.calls++
+	n, _ := w.buf.Write(p)
+	if w.calls == 1 && w.hook != nil {
+		w.hook()
+	}
+	return n, nil
+}
+
+func runServed(spec string) (res string) {
+	defer func() {
+		if r := recover(); r != nil {
+			res = fmt.Sprint("panic ", r)
+		}
+	}()
+	cont := accessory.NewContainer()
+	for ai, sp := range strings.Split(spec, ";") {
+		a, bad := buildIDAcc(ai, sp)
+		if a == nil {
+			return bad
+		}
+		cont.AddAccessory(a)
+	}
+	wantA, err := haphttp.JSONEncode(cont)
+	if err != nil {
+		return "served=unencodable"
+	}
+	expA := append([]byte(nil), wantA.Bytes()...)
+	// the other answer: longer than what A has been sent so far
+	other := map[string]interface{}{"characteristics": make([]map[string]interface{}, 0)}
+	for i := 0; i < 400; i++ {
+		other["characteristics"] = append(other["characteristics"].([]map[string]interface{}), map[string]interface{}{"aid": i, "iid": 9, "value": "other-controller"})
+	}
+	wantB, _ := haphttp.JSONEncode(other)
+	expB := append([]byte(nil), wantB.Bytes()...)
+	req, _ := nethttp.NewRequest("GET", "/accessories", nil)
+	wB := &chunkHook{hdr: nethttp.Header{}}
+	wA := &chunkHook{hdr: nethttp.Header{}}
+	wA.hook = func() { haphttp.WriteJSON(wB, req, other) }
+	haphttp.WriteJSON(wA, req, cont)
+	out := fmt.Sprintf("served=%dB/%dchunks", len(expA), wA.calls)
+	if !bytes.Equal(wA.buf.Bytes(), expA) {
+		i := 0
+		for i < len(expA) && i < wA.buf.Len() && expA[i] == wA.buf.Bytes()[i] {
+			i++
+		}
+		out += fmt.Sprintf(" A=differs@%d", i)
+	} else {
+		out += " A=own"
+	}
+	if !bytes.Equal(wB.buf.Bytes(), expB) {
+		out += " B=differs"
+	} else {
+		out += " B=own"
+	}
+	return out
 }
